@@ -327,6 +327,8 @@ SpecInit(E, D) ==
    k |-> [c \in 1..Len(E.ctxs) |-> << >>],
    err |-> ""]
 
+OnReset(ctx) == IF "onreset" \in DOMAIN ctx THEN ctx.onreset ELSE << >>
+
 ResetActive(ctx, rd) ==
   IF CIsNone(ctx.reset) THEN FALSE
   ELSE LET r == rd[ctx.reset.port] IN
@@ -352,16 +354,24 @@ AlwaysEnv(ctx, cur) ==
 
 ActivateSeq(E, D, c, st, cur) ==
   LET ctx == E.ctxs[c]
-      written == StmtsTargets(ctx.body, 1, {"next", "value", "push"})
-      pushed == StmtsTargets(ctx.body, 1, {"push"})
+      all == ctx.body \o OnReset(ctx)                       \* the registered on_reset actions belong to the same process
+      written == StmtsTargets(all, 1, {"next", "value", "push"})
+      pushed == StmtsTargets(all, 1, {"push"})
       vars == {n \in written : D.kind[n] = "variable"}
   IN
   IF ResetActive(ctx, cur) THEN
        \* C04: "every signal and variable driven by that context that has a default value and is not
        \*  marked noreset takes its default, an embedded coroutine returns to its first state ...
        \*  and nothing else in the context executes while reset is active"
-       LET rs == {n \in written : D.hasdflt[n] /\ ~D.noreset[n]} IN
-       [upd |-> [n \in rs |-> D.dflt[n]], K |-> << >>, err |-> ""]
+       \* "... and registered on_reset actions run, irrespective of the state the process was in": after the defaults
+       \* have been applied (std/_context.py: `cohdl.reset_context()` then the actions, in registration order)
+       LET rs == {n \in written : D.hasdflt[n] /\ ~D.noreset[n]}
+           dfl == [n \in rs |-> D.dflt[n]]
+           loc0 == [cur |-> cur, nxt |-> [n \in {x \in rs : D.kind[x] # "variable"} |-> dfl[n]],
+                    var |-> [n \in vars |-> IF n \in rs THEN dfl[n] ELSE cur[n]], tmp |-> AlwaysEnv(ctx, cur), err |-> ""]
+           r == Run(D, <<SeqFrame(OnReset(ctx))>>, loc0, FALSE, 200)
+       IN IF OnReset(ctx) = << >> THEN [upd |-> dfl, K |-> << >>, err |-> ""]
+          ELSE [upd |-> r.loc.nxt @@ r.loc.var, K |-> << >>, err |-> r.loc.err]
   ELSE IF ~CIsNone(ctx.step) /\ CondHolds(ctx.step, [cur |-> cur, var |-> CEmptyFn, tmp |-> CEmptyFn]) # "t" THEN
        \* a context with a step condition (clock enable) is activated only on clocks where it holds;
        \* a disabled clock changes nothing (the reset above is not gated by it: C04 "whenever the reset
